@@ -1,8 +1,363 @@
-(** * LifecycleProofs2: race freedom and deadlock freedom of the lifecycle model [Lifecycle.v] *)
+(** * LifecycleProofs2: the theorems about the lifecycle model [Lifecycle.v] (properties C14, C12-lifecycle),
+    from the invariant of LifecycleProofs.v.  All theorems quantify over ALL schedules (lists of thread ids,
+    [reachable]) and all call sequences. *)
 From Coq Require Import List Bool Arith PeanoNat Lia.
 Import ListNotations.
 Set Warnings "-unused-intro-pattern".
 From FG Require Import Lifecycle LifecycleProofs.
+
+(** * start_while_running_rejected *)
+
+(* the state components a rejected start must not touch *)
+Definition same_search_state (s s' : state) : Prop :=
+  curPos s' = curPos s /\ limitsVar s' = limitsVar s /\ stopPtr s' = stopPtr s /\ toks s' = toks s /\
+  srch s' = srch s /\ timers s' = timers s /\ ntimers s' = ntimers s /\ starts s' = starts s /\
+  runFree s' = runFree s /\ initFree s' = initFree s /\ timeLimit s' = timeLimit s /\ extraTime s' = extraTime s /\
+  results s' = results s.
+
+Lemma ctl_dispatch_start : forall s l, panicked s = false -> cpcv s = CIdle -> cur_call s = Some (CStart l) ->
+  step s TCtl = Some (set_cpcv CStTry (emit (ECall (cidx s)) s)).
+Proof. intros s l Hp Hpc Hc. unfold step, cstep. rewrite Hp, Hc, Hpc. reflexivity. Qed.
+Lemma ctl_try_rejected : forall s l, panicked s = false -> cpcv s = CStTry -> cur_call s = Some (CStart l) -> runFree s = false ->
+  step s TCtl = Some (set_cpcv (CRet (Some EStartRejected)) s).
+Proof. intros s l Hp Hpc Hc Hr. unfold step, cstep. rewrite Hp, Hc, Hpc, Hr. reflexivity. Qed.
+Lemma ctl_return : forall s r c, panicked s = false -> cpcv s = CRet r -> cur_call s = Some c ->
+  step s TCtl = Some (set_cpcv CIdle (set_cidx (S (cidx s)) (set_done (c :: done s) (set_calls (tl (calls s)) (emit_opt r s))))).
+Proof. intros s r c Hp Hpc Hc. unfold step, cstep. rewrite Hp, Hc, Hpc. reflexivity. Qed.
+
+Theorem start_while_running_rejected : forall s l,
+  panicked s = false -> cpcv s = CIdle -> cur_call s = Some (CStart l) -> runFree s = false ->
+  let s3 := run_sched s [TCtl; TCtl; TCtl] in
+  same_search_state s s3 /\ cpcv s3 = CIdle /\ calls s3 = tl (calls s) /\ cidx s3 = S (cidx s) /\
+  trace s3 = EStartRejected :: ECall (cidx s) :: trace s.
+Proof.
+  intros s l Hp Hpc Hc Hr. cbv zeta. unfold run_sched.
+  rewrite (ctl_dispatch_start s l Hp Hpc Hc).
+  rewrite (ctl_try_rejected (set_cpcv CStTry (emit (ECall (cidx s)) s)) l Hp eq_refl Hc Hr).
+  rewrite (ctl_return (set_cpcv (CRet (Some EStartRejected)) (set_cpcv CStTry (emit (ECall (cidx s)) s))) (Some EStartRejected) (CStart l) Hp eq_refl Hc).
+  unfold same_search_state. cbn. repeat split; reflexivity.
+Qed.
+
+(* the decision itself, for an arbitrary interleaving: whenever the TryAcquire of a StartSearch is executed
+   while isRunning is held, the call is rejected in that step, nothing of the running search changes, no
+   goroutine is created, and the remaining controller step (return) is never blocked *)
+Theorem start_rejected_step : forall s l,
+  panicked s = false -> cpcv s = CStTry -> cur_call s = Some (CStart l) -> runFree s = false ->
+  exists s', step s TCtl = Some s' /\ cpcv s' = CRet (Some EStartRejected) /\ same_search_state s s' /\
+             trace s' = trace s /\ calls s' = calls s.
+Proof.
+  intros s l Hp Hpc Hc Hr. unfold step, cstep. rewrite Hp, Hc, Hpc, Hr. eexists; split; [reflexivity|].
+  unfold same_search_state; simpl; repeat split; auto.
+Qed.
+
+(* the controller steps of a rejected StartSearch (dispatch, TryAcquire, return) are enabled in every state *)
+Theorem start_rejected_never_blocks : forall s,
+  panicked s = false -> cur_call s <> None ->
+  (cpcv s = CIdle \/ (cpcv s = CStTry /\ exists l, cur_call s = Some (CStart l)) \/ exists r, cpcv s = CRet r) ->
+  step s TCtl <> None.
+Proof.
+  intros s Hp Hc H. unfold step, cstep. rewrite Hp. destruct (cur_call s) as [c|]; try congruence.
+  destruct H as [H|[[H [l Hl]]|[r H]]]; rewrite H; try discriminate.
+  inversion Hl; subst. destruct (runFree s); discriminate.
+Qed.
+
+Example start_while_running_rejected_nonvacuous :
+  let s := run_sched (init true false false [CStart (mkLimits true false false 0 false false); CStart (mkLimits false false false 0 false false)])
+                     [TCtl; TCtl; TCtl; TCtl; TCtl; TCtl; TCtl; TSearch 1 Go; TSearch 1 Go; TSearch 1 Go; TSearch 1 Go; TSearch 1 Go; TSearch 1 Go; TSearch 1 Go;
+                      TSearch 1 Go; TSearch 1 Go; TSearch 1 Go; TSearch 1 Go; TCtl; TCtl; TCtl] in
+  (panicked s, cpcv s, cur_call s, runFree s, map sid (srch s)) =
+  (false, CIdle, Some (CStart (mkLimits false false false 0 false false)), false, [1]).
+Proof. vm_compute. reflexivity. Qed.
+
+(** * one_result_per_start, result_belongs_to_start *)
+
+Definition start_pending (p : cpc) : bool :=     (* accepted, goroutine not yet created *)
+  match p with CStAcqInit | CStPos | CStLim | CStTok | CStGo => true | _ => false end.
+Definition finished (s : state) (n : nat) : Prop :=
+  In n (start_ids (starts s)) /\ ~ In n (map sid (srch s ++ senders s)) /\ ~ (n = nacc s /\ start_pending (cpcv s) = true).
+
+Lemma NoDup_rev_seq : forall k, NoDup (rev (seq 1 k)).
+Proof. intros. apply NoDup_rev. apply seq_NoDup. Qed.
+Lemma in_rev_seq : forall k n, In n (rev (seq 1 k)) <-> 1 <= n <= k.
+Proof. intros. rewrite <- in_rev. rewrite in_seq. lia. Qed.
+
+(* accepted start n has finished: its goroutine has been created and has ended (also its sendResult) *)
+Theorem one_result_per_start : forall s, reachable s ->
+  length (results s) <= length (starts s) /\
+  NoDup (map fst (results s)) /\
+  (forall n, In n (map fst (results s)) -> In n (start_ids (starts s))) /\
+  (forall n, finished s n -> count_occ Nat.eq_dec (map fst (results s)) n = 1).
+Proof.
+  intros s R. pose proof (inv_reachable s R) as I. destruct I as [IA IB].
+  pose proof (B_resin s IB) as Hr. pose proof (B_resnd s IB) as Hnd. pose proof (B_ids s IB) as Hi.
+  assert (Hle : stopPtr s <= nacc s). { unfold nacc. destruct (cpcv s); lia. }
+  assert (Hsub : forall n, In n (map fst (results s)) -> In n (start_ids (starts s))).
+  { intros n Hn. apply Hr in Hn. rewrite Hi. apply in_rev_seq. lia. }
+  repeat split; auto.
+  - rewrite <- (map_length fst (results s)). unfold start_ids in *.
+    rewrite <- (map_length (fun x => fst (fst x)) (starts s)). apply NoDup_incl_length; auto.
+  - intros n [F1 [F2 F3]]. apply NoDup_count_occ'; auto. apply Hr.
+    rewrite Hi in F1. apply in_rev_seq in F1. unfold nacc, unsent_ids in *.
+    rewrite map_app, in_app_iff in F2.
+    split.
+    + destruct (cpcv s); simpl in *; try lia; assert (n <> S (stopPtr s)) by (intro; apply F3; auto); lia.
+    + rewrite !in_app_iff. intros [X|[X|X]].
+      * apply F2. left. exact X.
+      * apply F2. right. apply in_map_iff in X. destruct X as [t [E Ht]]. apply filter_In in Ht.
+        apply in_map_iff. exists t. tauto.
+      * destruct (cpcv s); simpl in *; try contradiction. destruct X as [X|[]]. apply F3. auto.
+Qed.
+
+Theorem result_belongs_to_start : forall s n r, reachable s -> In (n, r) (results s) ->
+  exists c l, In (n, c, l) (starts s).
+Proof.
+  intros s n r R Hin. destruct (one_result_per_start s R) as [_ [_ [H _]]].
+  assert (In n (map fst (results s))). { apply in_map_iff. exists (n, r). auto. }
+  apply H in H0. unfold start_ids in H0. apply in_map_iff in H0. destruct H0 as [[[n' c] l] [E Hx]].
+  simpl in E. subst. eauto.
+Qed.
+
+(* schedule fragment that lets search goroutine n return from iterativeDeepening as soon as it is in the search
+   loop, and run on (disabled picks are skipped by run_sched) *)
+Definition drive (n k : nat) : list tid := flat_map (fun _ => [TSearch n Finish; TSearch n Go]) (seq 0 k).
+
+Example one_result_nonvacuous :
+  let s := run_sched (init true false false [CStart (mkLimits false false false 0 false false); CWait; CStart (mkLimits false false false 0 false false); CWait])
+             (repeat TCtl 12 ++ drive 1 40 ++ repeat TCtl 20 ++ drive 2 40 ++ repeat TCtl 12) in
+  (results s, start_ids (starts s), map sid (srch s), cpcv s, calls s) = ([(2, RSelf); (1, RSelf)], [2; 1], [], CIdle, []).
+Proof. vm_compute. reflexivity. Qed.
+
+(** * no_foreign_stop *)
+
+(* uniqueness of the start entry of an id *)
+Lemma start_unique : forall s n c l c' l', Inv s -> In (n, c, l) (starts s) -> In (n, c', l') (starts s) -> c = c' /\ l = l'.
+Proof.
+  intros s n c l c' l' [IA IB] H1 H2. pose proof (B_ids s IB) as Hi. unfold start_ids in Hi.
+  assert (ND : NoDup (map (fun x => fst (fst x)) (starts s))). { rewrite Hi. apply NoDup_rev_seq. }
+  clear Hi. induction (starts s) as [|x st IH]; simpl in *; try contradiction.
+  inversion ND; subst. destruct H1 as [H1|H1], H2 as [H2|H2]; subst.
+  - inversion H2; auto.
+  - exfalso. apply H3. apply in_map_iff. exists (n, c', l'). auto.
+  - exfalso. apply H3. apply in_map_iff. exists (n, c, l). auto.
+  - auto.
+Qed.
+
+(* Why search n ended ([r] is recorded with its result):
+   RSelf  : iterativeDeepening returned by itself (only for searches that are neither infinite nor ponder);
+   RNodes : its own node limit (only for searches that are neither infinite nor ponder - see
+            infinite_not_before_stop);
+   RTimer k tok cr : timer k - then the timer holds token n (= was started for search n): by run n itself,
+            or by a PonderHit call issued after the StartSearch call of n;
+   RStop c : StopSearch / NewGame call number c, issued after the StartSearch call of n;
+   never REnd, never anything belonging to another search. *)
+Theorem no_foreign_stop : forall s n r, reachable s -> In (n, r) (results s) ->
+  exists cs l, In (n, cs, l) (starts s) /\
+  match r with
+  | RSelf => lPonder l || lInfinite l = false
+  | RNodes => lNodes l = true /\ lPonder l || lInfinite l = false
+  | RTimer k tok (ByRun m) => tok = n /\ m = n /\ lTimeControl l && negb (lPonder l) && negb (lInfinite l) = true
+  | RTimer k tok (ByPonderHit c) => tok = n /\ cs < c <= cidx s /\ nth_error (allcalls s) c = Some CPonderHit /\ lPonder l = true
+  | RStop c => cs < c <= cidx s /\ (nth_error (allcalls s) c = Some CStop \/ nth_error (allcalls s) c = Some CNewGame)
+  | REnd => False
+  end.
+Proof.
+  intros s n r R Hin. pose proof (inv_reachable s R) as I.
+  destruct (result_belongs_to_start s n r R Hin) as [cs [l Hst]]. exists cs, l. split; auto.
+  assert (U : forall c' l', In (n, c', l') (starts s) -> cs = c' /\ l = l') by (intros; eapply start_unique; eauto).
+  destruct I as [IA IB]. destruct (B_res s IB n r Hin) as [Hok _].
+  destruct r; simpl in Hok.
+  - destruct Hok as [c' [l' [H1 H2]]]. destruct (U _ _ H1); subst; auto.
+  - destruct Hok as [c' [l' [H1 H2]]]. destruct (U _ _ H1); subst; auto.
+  - destruct Hok as [E Hc]. destruct cr; simpl in Hc.
+    + destruct Hc as [E2 [c' [l' [H1 H2]]]]. destruct (U _ _ H1); subst; auto.
+    + destruct Hc as [H1 [H2 [H3 [c' [l' [H4 H5]]]]]]. destruct (U _ _ H4); subst. specialize (H3 _ _ Hst). repeat split; auto.
+  - destruct Hok as [H1 [H2 H3]]. specialize (H3 _ _ Hst). repeat split; auto.
+  - contradiction.
+Qed.
+
+(* direct corollaries in the wording of the property *)
+Corollary no_stale_timer : forall s n k tok cr, reachable s -> In (n, RTimer k tok cr) (results s) -> tok = n.
+Proof. intros. destruct (no_foreign_stop _ _ _ H H0) as [cs [l [_ X]]]. destruct cr; tauto. Qed.
+Corollary no_stale_stop : forall s n c cs l, reachable s -> In (n, RStop c) (results s) -> In (n, cs, l) (starts s) -> cs < c.
+Proof.
+  intros. destruct (no_foreign_stop _ _ _ H H0) as [cs' [l' [Hst X]]].
+  destruct (start_unique s n cs l cs' l' (inv_reachable s H) H1 Hst); subst. lia.
+Qed.
+
+(** * infinite_not_before_stop *)
+
+(* An infinite or ponder search answers only after a stop request issued after its start (StopSearch, or the
+   StopSearch inside NewGame), or after a PonderHit issued after its start followed by the expiry of that
+   PonderHit's timer.  (Holds for the code after "ponder and infinite searches answer only after
+   stop/ponderhit"; before that repair `go infinite movetime ..`, `go infinite nodes ..` and `go ponder nodes ..`
+   answered by themselves: run() started a timer for every time controlled non-ponder search, and
+   stopConditions stored true into the stop token when the node limit was reached - both confirmed on the
+   engine then: bestmove after 282 ms resp. 37 ms without any stop.) *)
+Theorem infinite_not_before_stop : forall s n r cs l, reachable s ->
+  In (n, r) (results s) -> In (n, cs, l) (starts s) -> lPonder l || lInfinite l = true ->
+  (exists c, r = RStop c /\ cs < c <= cidx s /\ (nth_error (allcalls s) c = Some CStop \/ nth_error (allcalls s) c = Some CNewGame)) \/
+  (exists k c, r = RTimer k n (ByPonderHit c) /\ cs < c <= cidx s /\ nth_error (allcalls s) c = Some CPonderHit).
+Proof.
+  intros s n r cs l R Hin Hst Hw. destruct (no_foreign_stop _ _ _ R Hin) as [cs' [l' [Hst' X]]].
+  destruct (start_unique s n cs l cs' l' (inv_reachable s R) Hst Hst'); subst.
+  destruct r; try congruence; try contradiction.
+  - (* RNodes: excluded by the wait loop *)
+    destruct X as [_ X]. congruence.
+  - destruct cr.
+    + destruct X as [_ [_ X]]. exfalso. destruct (lPonder l'), (lInfinite l'), (lTimeControl l'); simpl in *; discriminate.
+    + destruct X as [E [X1 [X2 X3]]]. subst. right. eauto.
+  - left. eauto.
+Qed.
+
+Example infinite_not_before_stop_nonvacuous :
+  let s := run_sched (init true false false [CStart (mkLimits true false false 0 false false); CStop])
+             (repeat TCtl 12 ++ repeat (TSearch 1 Go) 15 ++ repeat TCtl 12 ++ repeat (TSearch 1 Go) 30 ++ repeat TCtl 12) in
+  (results s, starts s, calls s) = ([(1, RStop 1)], [(1, 0, mkLimits true false false 0 false false)], []).
+Proof. vm_compute. reflexivity. Qed.
+
+(* the formerly refuted cases: `go infinite nodes ..` (node limit reached: Nodes choice) and `go infinite movetime ..`
+   now wait for the stop (result reason RStop 1, no timer was started) *)
+Example infinite_nodes_waits_for_stop :
+  let s1 := run_sched (init true false false [CStart (mkLimits true false true 0 true false); CStop])
+              (repeat TCtl 12 ++ repeat (TSearch 1 Go) 16 ++ [TSearch 1 Nodes]) in
+  let s := run_sched s1 (repeat (TSearch 1 Go) 40 ++ repeat TCtl 12 ++ repeat (TSearch 1 Go) 40 ++ repeat TCtl 12) in
+  (map spcv (srch s1), map sreason (srch s1), results s, ntimers s, calls s) =
+  ([SWaitLim], [Some RNodes], [(1, RStop 1)], 0, []).
+Proof. vm_compute. reflexivity. Qed.
+
+(* non-vacuity of no_foreign_stop.  (a) the scenario of the repaired defect: the timer of search 1 (token 1) is
+   still alive when the infinite search 2 runs, and fires (ETimerFired 1) - search 2 is not affected and ends
+   only with the later StopSearch (call 4).  (b) a ponder search ended by the timer of a PonderHit (call 1). *)
+Example no_foreign_stop_nonvacuous_stale_timer :
+  let s := run_sched (init true false false [CStart (mkLimits false false true 0 false false); CWait;
+                                              CStart (mkLimits true false false 0 false false); CIsSearching; CStop])
+    (repeat TCtl 12 ++ repeat (TSearch 1 Go) 15 ++ repeat (TTimer 0) 4 ++ drive 1 40 ++ repeat TCtl 30
+     ++ repeat (TSearch 2 Go) 15 ++ repeat TCtl 3 ++ [TTimer 0] ++ repeat (TSearch 2 Go) 20 ++ repeat TCtl 30
+     ++ repeat (TSearch 2 Go) 40 ++ repeat TCtl 10) in
+  (rev (trace s), results s) =
+  ([ECall 0; EResult 1; EStartReturned 1; ECall 1; EWaitReturned; ECall 2; EStartReturned 2; ETimerFired 1; ECall 3;
+    EIsSearching true; ECall 4; EResult 2; EStopReturned],
+   [(2, RStop 4); (1, RSelf)]).
+Proof. vm_compute. reflexivity. Qed.
+Example no_foreign_stop_nonvacuous_ponderhit :
+  let s := run_sched (init true false false [CStart (mkLimits false true true 1 false false); CPonderHit])
+    (repeat TCtl 12 ++ repeat (TSearch 1 Go) 15 ++ repeat TCtl 12
+     ++ [TTimer 0; TTick; TTimer 0; TTimer 0; TTimer 0; TTimer 0; TTimer 0] ++ drive 1 40) in
+  (rev (trace s), results s) =
+  ([ECall 0; EStartReturned 1; ECall 1; EPonderHitReturned; ETimerFired 1; EResult 1], [(1, RTimer 0 1 (ByPonderHit 1))]).
+Proof. vm_compute. reflexivity. Qed.
+
+(** * go_after_bestmove_accepted (run() releases isRunning BEFORE it sends the result) *)
+
+(* a result is recorded (and its EResult event emitted, in the same step) only by a goroutine that has already
+   released isRunning: it sits in [senders], at the WriteString of its bestmove line *)
+Lemma result_step : forall s t s', step s t = Some s' ->
+  results s' = results s \/
+  exists n th, t = TSearch n Go /\ find_s n (srch s) = None /\ find_s n (senders s) = Some th /\ spcv th = SRes1 /\
+               results s' = (n, result_reason th) :: results s /\ trace s' = EResult n :: trace s.
+Proof.
+  intros s t s' H. unfold step in H. destruct (panicked s); try discriminate. destruct t.
+  - left. unfold cstep in H. destruct (cur_call s) as [c|]; try discriminate.
+    unfold out_stage1, out_stage2, out_stage3, rel_init, rel_run, rel_out, acq_out, new_timer, emit_opt, emit, after_init_c in H.
+    destruct (cpcv s); try destruct c; try discriminate;
+    repeat match goal with
+    | H : context [if ?b then _ else _] |- _ => destruct b eqn:?; try discriminate
+    | H : context [match limitsVar ?s with _ => _ end] |- _ => destruct (limitsVar s) eqn:?
+    | H : context [match ?r with Some _ => _ | None => _ end] |- _ => destruct r eqn:?
+    | H : context [match ?r with LReady => _ | _ => _ end] |- _ => destruct r eqn:?
+    end; inversion H; subst; simpl; auto.
+  - destruct (find_s n (srch s)) as [th|] eqn:F.
+    + left. unfold sstep, goto_s, upd_s, out_stage1, out_stage2, out_stage3, rel_init, rel_run, rel_out, acq_out, new_timer, emit in H.
+      destruct (spcv th), c; try discriminate;
+      repeat match goal with
+      | H : context [if ?b then _ else _] |- _ => destruct b eqn:?; try discriminate
+      | H : context [match tok_get ?p ?l with _ => _ end] |- _ => destruct (tok_get p l) eqn:?
+      | H : context [match limitsVar ?s with _ => _ end] |- _ => destruct (limitsVar s) eqn:?
+      end; inversion H; subst; simpl; auto.
+    + destruct (find_s n (senders s)) as [th|] eqn:F2; try discriminate. destruct c; try discriminate.
+      destruct (find_s_in _ _ _ F2) as [_ En].
+      unfold nstep, upd_n, out_stage1, out_stage2, out_stage3, rel_out, acq_out, emit in H.
+      destruct (spcv th) eqn:Epc; try discriminate;
+      repeat match goal with
+      | H : context [if ?b then _ else _] |- _ => destruct b eqn:?; try discriminate
+      end; inversion H; subst; simpl; auto.
+      all: right; exists (sid th), th; repeat split; auto.
+  - left. destruct (find_t k (timers s)) as [th|]; try discriminate. unfold tstep, upd_t, emit in H.
+    destruct (tpcv th); try destruct (tok_get (ttok th) (toks s)); inversion H; subst; simpl; auto.
+  - left. inversion H; subst; simpl; auto.
+Qed.
+
+Lemma run_sched_snoc : forall l x t,
+  run_sched x (l ++ [t]) = match step (run_sched x l) t with Some y => y | None => run_sched x l end.
+Proof. induction l; simpl; intros; auto. Qed.
+
+Lemma reachable_step : forall s t s', reachable s -> step s t = Some s' -> reachable s'.
+Proof.
+  intros s t s' [s0 [I0 [sched Hs]]] H. exists s0. split; auto. exists (sched ++ [t]). subst.
+  rewrite run_sched_snoc, H. reflexivity.
+Qed.
+
+(* at the moment the bestmove of search n goes out, isRunning is not held by search n; it is free, or held by
+   the controller itself, or by a LATER search *)
+Theorem result_sent_after_release : forall s t s' n r, reachable s -> step s t = Some s' ->
+  results s' = (n, r) :: results s ->
+  trace s' = EResult n :: trace s /\
+  (forall th, In th (srch s') -> sid th <> n) /\
+  (runFree s' = true \/ holds_run (cpcv s') = true \/ exists th, In th (srch s') /\ n < sid th).
+Proof.
+  intros s t s' n r R H Hres. destruct (result_step s t s' H) as [E|[n' [th [Et [F1 [F2 [Epc [E1 E2]]]]]]]].
+  - exfalso. rewrite E in Hres. clear - Hres. induction (results s); [discriminate | inversion Hres; auto].
+  - rewrite Hres in E1. inversion E1; subst. split; auto.
+    assert (R' : reachable s') by (eapply reachable_step; eauto).
+    destruct (inv_reachable s' R') as [IA IB].
+    assert (Hin : In n' (map fst (results s'))) by (rewrite Hres; simpl; auto).
+    apply (B_resin s' IB) in Hin. destruct Hin as [Hr Hu]. unfold unsent_ids in Hu. rewrite !in_app_iff in Hu.
+    split.
+    + intros t Ht E. apply Hu. left. apply in_map_iff. exists t. auto.
+    + pose proof (A_run s' IA) as Hrun. pose proof (A_one s' IA) as Hone. pose proof (A_sid s' IA) as Hsid.
+      destruct (srch s') as [|t [|t2 l]] eqn:Es; simpl in *; try lia.
+      * destruct (holds_run (cpcv s')); simpl in Hrun; auto.
+      * right. right. exists t. split; auto. destruct (Hsid t (or_introl eq_refl)) as [E _].
+        assert (sid t <> n') by (intro; apply Hu; left; left; auto). lia.
+Qed.
+
+(* a StartSearch issued after the bestmove of the latest accepted search n has gone out is accepted: its
+   TryAcquire succeeds (before the repair "a new search can be started as soon as the result of the previous
+   one is out" run() sent the result while still holding isRunning, and such a go was rejected) *)
+Theorem go_after_bestmove_accepted : forall s n l, reachable s ->
+  In n (map fst (results s)) -> stopPtr s = n ->
+  cpcv s = CStTry -> cur_call s = Some (CStart l) ->
+  exists s', step s TCtl = Some s' /\ cpcv s' = CStAcqInit /\ starts s' = (S n, cidx s, l) :: starts s.
+Proof.
+  intros s n l R Hin Hp Hpc Hc. destruct (inv_reachable s R) as [IA IB].
+  assert (Hfree : runFree s = true).
+  { pose proof (A_run s IA) as Hrun. rewrite Hpc in Hrun. simpl in Hrun. rewrite Hrun.
+    destruct (srch s) as [|t r] eqn:Es; auto. exfalso.
+    apply (B_resin s IB) in Hin. destruct Hin as [_ Hu]. apply Hu. unfold unsent_ids. rewrite Es. simpl. left.
+    destruct (A_sid s IA t) as [E _]. { rewrite Es. simpl. auto. } congruence. }
+  unfold step, cstep. rewrite (A_pan s IA), Hc, Hpc, Hfree. eexists. split; [reflexivity|]. simpl. rewrite Hp. auto.
+Qed.
+
+Example go_after_bestmove_nonvacuous :
+  let s := run_sched (init true false false [CStart (mkLimits false false true 0 false false); CStart (mkLimits true false false 0 false false)])
+             (repeat TCtl 12 ++ drive 1 40 ++ repeat TCtl 4) in
+  (map fst (results s), stopPtr s, cpcv s, cur_call s, map spcv (senders s)) =
+  ([1], 1, CStTry, Some (CStart (mkLimits true false false 0 false false)), []).
+Proof. vm_compute. reflexivity. Qed.
+
+(* FINDING (allowed by the current code, consequence of releasing before sending): the bestmove lines of two
+   consecutive searches can go out in swapped order - search 1 has released isRunning and is about to lock
+   sendLock; a second go is accepted, search 2 runs to its end and sends first.  Each line still carries the
+   data of its own search ([result_belongs_to_start]) and each accepted go gets exactly one line. *)
+Theorem results_can_swap : exists cs sched,
+  let s := run_sched (init true false false cs) sched in
+  outLines s = [LBest 2; LBest 1] /\ results s = [(1, RSelf); (2, RSelf)] /\ calls s = [].
+Proof.
+  exists [CStart (mkLimits false false false 0 false false); CStart (mkLimits false false false 0 false false)].
+  exists (repeat TCtl 12 ++ repeat (TSearch 1 Go) 11 ++ [TSearch 1 Finish] ++ repeat (TSearch 1 Go) 6 ++ repeat TCtl 14
+          ++ drive 2 40 ++ repeat TCtl 6 ++ repeat (TSearch 1 Go) 8).
+  vm_compute. auto.
+Qed.
 
 (** * race_free *)
 
@@ -78,47 +433,110 @@ Proof.
     try discriminate; try (split; [discriminate | auto]); try (split; [discriminate | discriminate]).
 Qed.
 
-Lemma ctl_search_noconflict : forall s n c a b, InvA s ->
-  caccess s = Some a -> access_of s (TSearch n c) = Some b -> conflict a b = false.
-Proof.
-  intros s n c a b I Ha Hb. simpl in Hb.
-  destruct (find_s n (srch s)) as [th|] eqn:F; try discriminate.
-  destruct (srch_single _ _ _ (A_one _ I) F) as [Es En]. clear F.
-  apply caccess_char in Ha. apply saccess_char in Hb.
-  destruct I as [Ipan Ione Irun Iexcl Iinit Iphase Icall Izone Itt Ittw Itoks Isid Icp Iph Iout Ioutx Ibuf0 Ierr Icbuf Isbuf Ilim].
-  unfold srch_init, srch_send in *. rewrite Es in *. simpl in *.
-  specialize (Itt th (or_introl eq_refl)).
-  assert (Hrun : holds_run (cpcv s) = false).
-  { destruct (holds_run (cpcv s)) eqn:E; auto. specialize (Iexcl eq_refl). discriminate. }
-  assert (Hz : zone_u (cpcv s) = true -> False).
-  { intro E. assert (zone (cpcv s) (cur_call s) = true).
-    { unfold zone. destruct (cpcv s); simpl in *; try discriminate; rewrite ?orb_true_r; auto. }
-    specialize (Izone H). discriminate. }
-  rewrite orb_false_r in *.
-  destruct (conflict a b) eqn:Ec; auto. exfalso.
-  destruct a as [va wa aa], b as [vb wb ab]. unfold conflict in Ec. simpl in *.
-  apply andb_prop in Ec. destruct Ec as [Ec E3]. apply andb_prop in Ec. destruct Ec as [E1 E2].
-  apply var_eqb_eq in E1. subst vb.
-  destruct va; simpl in *; try contradiction.
-  all: try (subst; rewrite orb_false_r in E2; subst; specialize (Ha eq_refl); congruence).
-  all: try (subst; discriminate).
-  all: try (apply Ha; auto; fail).
-  all: try (specialize (Ioutx Ha); congruence).
-  all: try (apply Hz; auto; fail).
-  (* VTT *)
-  destruct Ha as [Hw Ha]. destruct Hb as [Hb|[Hb1 Hb2]].
-  - apply Hw. auto.
-  - subst. rewrite orb_false_r in E2. subst. destruct (Ha eq_refl) as [X|X]; auto.
-    destruct (Ittw X) as [Y Z]. specialize (Itt Hb2 Z). congruence.
-Qed.
-
-Lemma find_s_two : forall s n m th th', length (srch s) <= 1 ->
+Lemma find_s_two_aux : forall s n m th th', length (srch s) <= 1 ->
   find_s n (srch s) = Some th -> find_s m (srch s) = Some th' -> n = m.
 Proof.
   intros. destruct (srch_single _ _ _ H H0). destruct (srch_single _ _ _ H H1). congruence.
 Qed.
 
-(* no two conflicting accesses of different goroutines are ever pending together (enabledness is not even needed) *)
+Lemma sender_access : forall s th c b, snd_pc (spcv th) = true -> saccess s th c = Some b ->
+  avar b = VOut /\ s_send (spcv th) = true.
+Proof.
+  intros s th c b Hp H. unfold saccess in H. destruct (spcv th), c; simpl in Hp; try discriminate; inversion H; subst; auto.
+Qed.
+
+Lemma holder_two : forall s a b, holder_is s a = true -> holder_is s b = true -> a = b.
+Proof.
+  unfold holder_is. intros s a b Ha Hb. destruct (outHolder s) as [x|]; try discriminate.
+  destruct x, a; simpl in Ha; try discriminate; destruct b; simpl in Hb; try discriminate; auto;
+    apply Nat.eqb_eq in Ha; apply Nat.eqb_eq in Hb; congruence.
+Qed.
+
+Lemma ctl_search_noconflict : forall s n c a b, InvA s ->
+  caccess s = Some a -> access_of s (TSearch n c) = Some b -> conflict a b = false.
+Proof.
+  intros s n c a b I Ha Hb. simpl in Hb.
+  destruct (find_s n (srch s)) as [th|] eqn:F.
+  - destruct (srch_single _ _ _ (A_one _ I) F) as [Es En]. clear F.
+    apply caccess_char in Ha. apply saccess_char in Hb.
+    destruct I as [Ipan Ione Irun Iexcl Iinit Iphase Icall Izone Itt Ittw Itoks Isid Icp Iph Ihfree Ihctl Ihsrch Ihsnd Ibuf0 Ierr Icbuf Isbuf Inbuf Isrun Isnd Isndnd Ihex Ihkind Ilim].
+    unfold srch_init, srch_send in *. rewrite Es in *. simpl in *.
+    specialize (Itt th (or_introl eq_refl)). specialize (Ihsrch th (or_introl eq_refl)).
+    assert (Hrun : holds_run (cpcv s) = false).
+    { destruct (holds_run (cpcv s)) eqn:E; auto. specialize (Iexcl eq_refl). discriminate. }
+    assert (Hz : zone_u (cpcv s) = true -> False).
+    { intro E. assert (zone (cpcv s) (cur_call s) = true).
+      { unfold zone. destruct (cpcv s); simpl in *; try discriminate; rewrite ?orb_true_r; auto. }
+      specialize (Izone H). discriminate. }
+    rewrite orb_false_r in *.
+    destruct (conflict a b) eqn:Ec; auto. exfalso.
+    destruct a as [va wa aa], b as [vb wb ab]. unfold conflict in Ec. simpl in *.
+    apply andb_prop in Ec. destruct Ec as [Ec E3]. apply andb_prop in Ec. destruct Ec as [E1 E2].
+    apply var_eqb_eq in E1. subst vb.
+    destruct va; simpl in *; try contradiction.
+    all: try (subst; rewrite orb_false_r in E2; subst; specialize (Ha eq_refl); congruence).
+    all: try (subst; discriminate).
+    all: try (apply Ha; auto; fail).
+    all: try (rewrite Ihctl in Ha; rewrite Ihsrch in Hb; pose proof (holder_two _ _ _ Ha Hb); discriminate).
+    all: try (apply Hz; auto; fail).
+    (* VTT *)
+    destruct Ha as [Hw Ha]. destruct Hb as [Hb|[Hb1 Hb2]].
+    + apply Hw. auto.
+    + subst. rewrite orb_false_r in E2. subst. destruct (Ha eq_refl) as [X|X]; auto.
+      destruct (Ittw X) as [Y Z]. specialize (Itt Hb2 Z). congruence.
+  - destruct (find_s n (senders s)) as [th|] eqn:F2; try discriminate. destruct c; try discriminate.
+    destruct (find_s_in _ _ _ F2) as [Hin _].
+    destruct (A_snd _ I th Hin) as [Hpc _].
+    destruct (sender_access s th Go b Hpc Hb) as [Ev Hs].
+    apply caccess_char in Ha.
+    destruct (conflict a b) eqn:Ec; auto. exfalso.
+    destruct a as [va wa aa], b as [vb wb ab]. unfold conflict in Ec. simpl in *.
+    apply andb_prop in Ec. destruct Ec as [Ec E3]. apply andb_prop in Ec. destruct Ec as [E1 E2].
+    apply var_eqb_eq in E1. subst. simpl in Ha.
+    rewrite (A_hctl _ I) in Ha. rewrite (A_hsnd _ I th Hin) in Hs. pose proof (holder_two _ _ _ Ha Hs). discriminate.
+Qed.
+
+(* two different search goroutines (one may still own isRunning, any number may be in sendResult) *)
+Lemma search_search_noconflict : forall s n1 c1 n2 c2 a b, InvA s -> n1 <> n2 ->
+  access_of s (TSearch n1 c1) = Some a -> access_of s (TSearch n2 c2) = Some b -> conflict a b = false.
+Proof.
+  intros s n1 c1 n2 c2 a b I Hne Ha Hb. simpl in Ha, Hb.
+  assert (Key : forall n c x th, (find_s n (srch s) = Some th \/ (find_s n (srch s) = None /\ find_s n (senders s) = Some th)) ->
+                 saccess s th c = Some x -> avar x = VOut -> holder_is s (ThSearch n) = true).
+  { intros n c x th [F|[_ F]] Hx Ev; destruct (find_s_in _ _ _ F) as [Hin En]; subst n.
+    - apply saccess_char in Hx. rewrite Ev in Hx. rewrite <- (A_hsrch _ I th Hin). auto.
+    - destruct (A_snd _ I th Hin) as [Hpc _]. destruct (sender_access s th c x Hpc Hx) as [_ Hs].
+      rewrite <- (A_hsnd _ I th Hin). auto. }
+  destruct (find_s n1 (srch s)) as [t1|] eqn:F1; destruct (find_s n2 (srch s)) as [t2|] eqn:F2.
+  - exfalso. apply Hne. eapply find_s_two_aux; eauto. apply (A_one _ I).
+  - destruct (find_s n2 (senders s)) as [t2|] eqn:G2; try discriminate. destruct c2; try discriminate.
+    destruct (find_s_in _ _ _ G2) as [Hin2 _]. destruct (A_snd _ I t2 Hin2) as [Hpc2 _].
+    destruct (sender_access s t2 Go b Hpc2 Hb) as [Ev2 _].
+    destruct (conflict a b) eqn:Ec; auto. exfalso. unfold conflict in Ec.
+    apply andb_prop in Ec. destruct Ec as [Ec _]. apply andb_prop in Ec. destruct Ec as [E1 _].
+    apply var_eqb_eq in E1.
+    pose proof (Key n1 c1 a t1 (or_introl F1) Ha ltac:(congruence)) as H1.
+    pose proof (Key n2 Go b t2 (or_intror (conj F2 G2)) Hb Ev2) as H2.
+    pose proof (holder_two _ _ _ H1 H2) as X. inversion X. contradiction.
+  - destruct (find_s n1 (senders s)) as [t1|] eqn:G1; try discriminate. destruct c1; try discriminate.
+    destruct (find_s_in _ _ _ G1) as [Hin1 _]. destruct (A_snd _ I t1 Hin1) as [Hpc1 _].
+    destruct (sender_access s t1 Go a Hpc1 Ha) as [Ev1 _].
+    destruct (conflict a b) eqn:Ec; auto. exfalso. unfold conflict in Ec.
+    apply andb_prop in Ec. destruct Ec as [Ec _]. apply andb_prop in Ec. destruct Ec as [E1 _].
+    apply var_eqb_eq in E1.
+    pose proof (Key n1 Go a t1 (or_intror (conj F1 G1)) Ha Ev1) as H1.
+    pose proof (Key n2 c2 b t2 (or_introl F2) Hb ltac:(congruence)) as H2.
+    pose proof (holder_two _ _ _ H1 H2) as X. inversion X. contradiction.
+  - destruct (find_s n1 (senders s)) as [t1|] eqn:G1; try discriminate. destruct c1; try discriminate.
+    destruct (find_s n2 (senders s)) as [t2|] eqn:G2; try discriminate. destruct c2; try discriminate.
+    destruct (find_s_in _ _ _ G1) as [Hin1 _]. destruct (A_snd _ I t1 Hin1) as [Hpc1 _].
+    destruct (find_s_in _ _ _ G2) as [Hin2 _]. destruct (A_snd _ I t2 Hin2) as [Hpc2 _].
+    destruct (sender_access s t1 Go a Hpc1 Ha) as [Ev1 _]. destruct (sender_access s t2 Go b Hpc2 Hb) as [Ev2 _].
+    pose proof (Key n1 Go a t1 (or_intror (conj F1 G1)) Ha Ev1) as H1.
+    pose proof (Key n2 Go b t2 (or_intror (conj F2 G2)) Hb Ev2) as H2.
+    pose proof (holder_two _ _ _ H1 H2) as X. inversion X. contradiction.
+Qed.
+
 Lemma no_conflict : forall s t1 t2 a b, InvA s -> thread_of t1 <> thread_of t2 ->
   access_of s t1 = Some a -> access_of s t2 = Some b -> conflict a b = false.
 Proof.
@@ -127,13 +545,14 @@ Proof.
   - eapply ctl_search_noconflict; eauto.
   - simpl in Ha, Hb. destruct (find_t k2 (timers s)); try discriminate. rewrite conflict_sym. eapply timer_ctl_noconflict; eauto.
   - rewrite conflict_sym. eapply ctl_search_noconflict; eauto.
-  - simpl in Ha, Hb. destruct (find_s n1 (srch s)) eqn:F1; try discriminate. destruct (find_s n2 (srch s)) eqn:F2; try discriminate.
-    exfalso. apply Hne. f_equal. eapply find_s_two; eauto. apply (A_one _ I).
-  - simpl in Ha, Hb. destruct (find_s n1 (srch s)); try discriminate. destruct (find_t k2 (timers s)); try discriminate.
-    rewrite conflict_sym. eapply timer_search_noconflict; eauto.
+  - eapply (search_search_noconflict s n1 c1 n2 c2); eauto; intro; apply Hne; congruence.
+  - simpl in Ha, Hb. destruct (find_t k2 (timers s)); try discriminate. rewrite conflict_sym.
+    destruct (find_s n1 (srch s)); [eapply timer_search_noconflict; eauto|].
+    destruct (find_s n1 (senders s)); try discriminate. destruct c1; try discriminate. eapply timer_search_noconflict; eauto.
   - simpl in Ha, Hb. destruct (find_t k1 (timers s)); try discriminate. eapply timer_ctl_noconflict; eauto.
-  - simpl in Ha, Hb. destruct (find_s n2 (srch s)); try discriminate. destruct (find_t k1 (timers s)); try discriminate.
-    eapply timer_search_noconflict; eauto.
+  - simpl in Ha, Hb. destruct (find_t k1 (timers s)); try discriminate.
+    destruct (find_s n2 (srch s)); [eapply timer_search_noconflict; eauto|].
+    destruct (find_s n2 (senders s)); try discriminate. destruct c2; try discriminate. eapply timer_search_noconflict; eauto.
   - simpl in Ha, Hb. destruct (find_t k1 (timers s)); try discriminate. destruct (find_t k2 (timers s)); try discriminate.
     eapply timer_timer_noconflict; eauto.
 Qed.
@@ -229,10 +648,9 @@ Proof.
             eapply (srch_risky_set s _ (ttok th) (RTimer (tmid th) (ttok th) (tcreator th))); [| | |exact Hr]; reflexivity).
 Qed.
 
-Lemma invJ_search : forall s n c s', InvA s -> InvJ s -> step s (TSearch n c) = Some s' -> InvJ s'.
+Lemma invJ_search : forall s n c s' th, InvA s -> InvJ s -> find_s n (srch s) = Some th -> sstep s th c = Some s' -> InvJ s'.
 Proof.
-  intros s n c s' IA I H. unfold step in H. rewrite (A_pan _ IA) in H.
-  destruct (find_s n (srch s)) as [th|] eqn:F; try discriminate.
+  intros s n c s' th IA I F H.
   destruct (srch_single _ _ _ (A_one _ IA) F) as [Es En]. clear F.
   assert (Herr := A_err _ IA).
   destruct (A_sid _ IA th) as [Esid [Elim Epar]]. { rewrite Es; simpl; auto. }
@@ -250,7 +668,7 @@ Proof.
   end;
   try inv_some.
   all: simpl in *; subst.
-  all: unfold rel_init, rel_run, rel_out, new_timer, emit, after_init_s.
+  all: unfold rel_init, rel_run, rel_out, new_timer, emit, after_init_s, acq_out.
   all: simpl; rewrite ?Es; simpl; rewrite ?Nat.eqb_refl; simpl.
   all: repeat match goal with |- context [if ?b then _ else _] => destruct b eqn:? end.
   all: simpl; rewrite ?Es; simpl; rewrite ?Nat.eqb_refl; simpl.
@@ -295,62 +713,34 @@ Proof.
   all: try (intros _; destruct (srch s); auto; discriminate).
 Qed.
 
+Lemma invJ_sender : forall s s' th, InvJ s -> nstep s th = Some s' -> InvJ s'.
+Proof.
+  intros s s' th I H. destruct I as [Jtok Jwf Jafter Jwait].
+  unfold nstep, upd_n, out_stage1, out_stage2, out_stage3, rel_out, acq_out, emit in H.
+  destruct (spcv th); try discriminate;
+  repeat match goal with
+  | H : context [if ?b then _ else _] |- _ => destruct b eqn:?; try discriminate
+  end; inversion H; subst; constructor; auto.
+Qed.
+
 Lemma invJ_step : forall s t s', InvA s -> InvJ s -> step s t = Some s' -> InvJ s'.
 Proof.
   intros s t s' IA I H. destruct t.
   - eapply invJ_ctl; eauto.
-  - eapply invJ_search; eauto.
+  - unfold step in H. rewrite (A_pan _ IA) in H.
+    destruct (find_s n (srch s)) as [th|] eqn:F.
+    + eapply invJ_search; eauto.
+    + destruct (find_s n (senders s)) as [th|] eqn:F2; try discriminate. destruct c; try discriminate.
+      eapply invJ_sender; eauto.
   - eapply invJ_timer; eauto.
   - unfold step in H. rewrite (A_pan _ IA) in H. inv_some. apply invJ_tick; auto.
 Qed.
 
 (** * no_deadlock *)
 
-(** ** local statement: a blocked controller is never alone *)
-
 Definition ctl_blocked (s : state) : Prop := controller_done s = false /\ step s TCtl = None.
 
-Lemma search_go_enabled : forall s th, panicked s = false -> In th (srch s) -> length (srch s) <= 1 ->
-  (match spcv th with SInfo0 | SRes0 => outFree s = true | _ => True end) ->
-  exists c, step s (TSearch (sid th) c) <> None.
-Proof.
-  intros s th Hp Hin Hone Hl.
-  assert (F : find_s (sid th) (srch s) = Some th).
-  { destruct (srch s) as [|x [|y r]]; simpl in *; try lia; try contradiction. destruct Hin as [E|[]]; subst.
-    unfold find_s; simpl. rewrite Nat.eqb_refl. reflexivity. }
-  exists Go. unfold step. rewrite Hp, F. unfold sstep, goto_s.
-  destruct (spcv th); try rewrite Hl; try discriminate;
-    try (destruct (limitsVar s); discriminate); try (destruct (tok_get _ _); discriminate);
-    try (destruct (out_stage2 s); discriminate).
-Qed.
-
-Theorem no_deadlock_local : forall s, reachable s -> ctl_blocked s ->
-  exists t, thread_of t <> ThCtl /\ thread_of t <> ThClock /\ step s t <> None.
-Proof.
-  intros s R [Hd Hb]. destruct (inv_reachable s R) as [IA IB].
-  pose proof (A_pan _ IA) as Hp. pose proof (A_one _ IA) as Hone.
-  unfold step in Hb. rewrite Hp in Hb. unfold cstep, controller_done in *.
-  unfold cur_call in Hb. destruct (calls s) as [|c cs] eqn:Ec; try discriminate. simpl in Hb.
-  pose proof (A_run _ IA) as Hrun. pose proof (A_init _ IA) as Hinit. pose proof (A_out _ IA) as Hout.
-  pose proof (A_phase _ IA) as Hph. pose proof (A_call _ IA) as Hcall. pose proof (A_ph _ IA) as Hphl.
-  unfold cur_call in Hcall. rewrite Ec in Hcall. simpl in Hcall.
-  assert (X : exists th, In th (srch s) /\ (match spcv th with SInfo0 | SRes0 => outFree s = true | _ => True end)).
-  { unfold srch_init, srch_send in *.
-    destruct (cpcv s) eqn:Epc; simpl in *; destruct c; try discriminate;
-    repeat match goal with
-    | H : (if ?b then _ else _) = None |- _ => destruct b eqn:?; try discriminate
-    | H : match limitsVar ?s with _ => _ end = None |- _ => destruct (limitsVar s) eqn:?; try discriminate
-    | H : (let (_, _) := out_stage2 ?s in _) = None |- _ => destruct (out_stage2 s); discriminate
-    end; try discriminate.
-    all: destruct (srch s) as [|th [|th2 r]] eqn:Es; simpl in *; try lia; try discriminate.
-    all: try (exists th; split; [auto|]; destruct (spcv th); simpl in *; auto; try discriminate; fail).
-    all: try (exfalso; apply Hphl; auto; fail). }
-  destruct X as [th [Hin Hl]].
-  destruct (search_go_enabled s th Hp Hin Hone Hl) as [ch Hs].
-  exists (TSearch (sid th) ch). simpl. repeat split; auto; discriminate.
-Qed.
-
-(** ** global statement: a schedule that completes all controller calls exists from every reachable state *)
+(** ** ranks: every step chosen by the scheduling strategy lowers the measure *)
 
 Definition crank (p : cpc) : nat :=
   match p with
@@ -368,16 +758,16 @@ Definition srank (p : spc) : nat :=
   | SHasRes0 => 500 | STL0 => 490 | SET0 => 480 | SInBook => 470 | SInBookW => 460 | SInTT => 450 | SInTTW => 440
   | SSetTL => 430 | SSetET => 420 | SLimTimer => 410 | STimerPtr => 400 | STimerGo _ => 390 | SBook => 380
   | STTAge => 370 | SHist => 360 | SRelInit => 350
-  | SNodesPtr => 157 | SNodesStore _ => 156 | SPollPtr => 155 | SPollTok _ => 154 | SPollLim => 153
-  | SPoll2Ptr => 152 | SPoll2Tok _ => 151 | SNodeTT => 150 | SNodeHist => 149
+  | SPollPtr => 155 | SPollTok _ => 154 | SPollLim => 153 | SNodeTT => 150 | SNodeHist => 149
   | SInfo0 => 148 | SInfo1 => 147 | SInfo2 => 146 | SInfo3 _ => 145 | SInfo4 => 144
   | SExtra1 => 143 | SExtra2 _ => 142 | SExtra3 _ => 141 | SLoop => 140
   | SWaitLim => 130 | SWaitPtr => 129 | SWaitTok _ => 128
   | SLastRes => 120 | SHasRes1 => 119 | SEndPtr => 118 | SEndStore _ => 117
-  | SRes0 => 116 | SRes1 => 115 | SRes2 => 114 | SRes3 _ => 113 | SRes4 => 112 | SRelRun => 111
+  | SRelRun => 116 | SRes0 => 115 | SRes1 => 114 | SRes2 => 113 | SRes3 _ => 112 | SRes4 => 111
   end.
 Definition ctl_rank (s : state) : nat := length (calls s) * 41 + crank (cpcv s).
-Definition srch_rank (s : state) : nat := list_sum (map (fun th => srank (spcv th)) (srch s)).
+Definition rk (th : sthread) : nat := srank (spcv th).
+Definition srch_rank (s : state) : nat := list_sum (map rk (srch s)) + list_sum (map rk (senders s)).
 Definition measure (s : state) : nat := ctl_rank s * 1000 + srch_rank s.
 
 Lemma ctl_progress : forall s s', InvA s -> cstep s = Some s' ->
@@ -392,48 +782,125 @@ Proof.
     | H : (if ?b then _ else _) = Some _ |- _ => destruct b eqn:?; try discriminate
     | H : match limitsVar ?s with _ => _ end = Some _ |- _ => destruct (limitsVar s) eqn:?
     end; try inv_some; try discriminate.
-  all: unfold rel_init, rel_run, rel_out, new_timer, emit_opt, emit, after_init_c.
+  all: unfold rel_init, rel_run, rel_out, new_timer, emit_opt, emit, after_init_c, acq_out.
   all: repeat match goal with |- context [if ?b then _ else _] => destruct b eqn:? end.
   all: repeat match goal with |- context [match ?b with Some _ => _ | None => _ end] => destruct b eqn:? end.
   all: repeat match goal with |- context [match ?b with LReady => _ | _ => _ end] => destruct b eqn:? end.
   all: unfold ctl_rank, srch_rank; cbn -[Nat.mul Nat.add]; rewrite ?Ec, ?Epc; cbn -[Nat.mul Nat.add]; try lia.
-  all: try (split; [lia | unfold list_sum; cbn -[Nat.mul Nat.add]; lia]).
+  all: try (split; [lia | unfold list_sum, rk; cbn -[Nat.mul Nat.add]; lia]).
   exfalso. apply (A_ph _ IA); [rewrite Epc; reflexivity | assumption].
 Qed.
 
+
 Lemma search_progress : forall s th, InvA s -> srch s = [th] ->
-  (match spcv th with SInfo0 | SRes0 => outFree s = true | SWaitTok _ => tok_unset s = false | _ => True end) ->
+  (match spcv th with SInfo0 => outFree s = true | SWaitTok _ => tok_unset s = false | _ => True end) ->
   exists c s', step s (TSearch (sid th) c) = Some s' /\ srch_rank s' < srch_rank s /\ ctl_rank s' = ctl_rank s.
 Proof.
   intros s th IA Es Hc.
-  assert (Hp := A_pan _ IA). assert (Herr := A_err _ IA).
+  assert (Hp := A_pan _ IA). assert (Herr := A_err _ IA). assert (Hsr := A_srun _ IA th).
   destruct (A_sid _ IA th) as [Esid [Elim Epar]]. { rewrite Es; simpl; auto. }
   exists (match spcv th with SLoop => Finish | _ => Go end).
   unfold step. rewrite Hp. unfold find_s. rewrite Es. simpl. rewrite Nat.eqb_refl.
   unfold sstep, goto_s, upd_s, out_stage1, out_stage2, out_stage3. rewrite Elim, Es, ?Herr.
-  unfold tok_unset in Hc.
-  destruct (spcv th) eqn:Epc; simpl in Epar; subst;
+  unfold tok_unset in Hc. rewrite Es in Hsr. specialize (Hsr (or_introl eq_refl)).
+  destruct (spcv th) eqn:Epc; simpl in Epar, Hsr; subst; try discriminate;
     try rewrite Hc;
     repeat match goal with
     | |- context [match tok_get ?p ?l with _ => _ end] => destruct (tok_get p l) eqn:?; try discriminate
     | |- context [if ?b then _ else _] => destruct b eqn:?
     end;
     eexists; (split; [reflexivity|]);
-    unfold srch_rank, ctl_rank, rel_init, rel_run, rel_out, new_timer, emit;
+    unfold srch_rank, ctl_rank, rel_init, rel_run, rel_out, new_timer, emit, acq_out;
     repeat match goal with |- context [if ?b then _ else _] => destruct b eqn:? end;
-    unfold list_sum; cbn -[Nat.mul Nat.add]; rewrite ?Es; cbn -[Nat.mul Nat.add]; rewrite ?Nat.eqb_refl; cbn -[Nat.mul Nat.add]; rewrite ?Epc; cbn -[Nat.mul Nat.add]; try (split; lia).
+    unfold list_sum, rk; cbn -[Nat.mul Nat.add]; rewrite ?Es; cbn -[Nat.mul Nat.add]; rewrite ?Nat.eqb_refl; cbn -[Nat.mul Nat.add]; rewrite ?Epc; cbn -[Nat.mul Nat.add]; try (split; lia).
   all: unfold after_init_s; destruct (lTimeControl (slim th)); cbn -[Nat.mul Nat.add]; split; lia.
 Qed.
 
-Lemma blocked_search_cond : forall s, InvA s -> InvJ s -> controller_done s = false -> cstep s = None ->
-  exists th, srch s = [th] /\
-      (match spcv th with SInfo0 | SRes0 => outFree s = true | SWaitTok _ => tok_unset s = false | _ => True end).
+Lemma rank_put : forall l th th', NoDup (map sid l) -> In th l -> sid th' = sid th ->
+  list_sum (map rk (put_s th' l)) + rk th = list_sum (map rk l) + rk th'.
+Proof.
+  induction l as [|a l IH]; simpl; intros th th' ND Hin E; try contradiction. inversion ND; subst.
+  destruct Hin as [Ea|Hin].
+  - subst a. rewrite E, Nat.eqb_refl.
+    assert (X : put_s th' l = l).
+    { unfold put_s. rewrite <- (map_id l) at 2. apply map_ext_in. intros x Hx.
+      destruct (Nat.eqb_spec (sid x) (sid th')); auto. exfalso. apply H1. apply in_map_iff. exists x. split; auto. congruence. }
+    fold (put_s th' l). rewrite X. lia.
+  - assert (sid a <> sid th'). { intro X. apply H1. apply in_map_iff. exists th. split; auto. congruence. }
+    apply Nat.eqb_neq in H. rewrite H. fold (put_s th' l). specialize (IH th th' H2 Hin E). lia.
+Qed.
+Lemma rank_del : forall l th, NoDup (map sid l) -> In th l ->
+  list_sum (map rk (del_s (sid th) l)) + rk th = list_sum (map rk l).
+Proof.
+  induction l as [|a l IH]; simpl; intros th ND Hin; try contradiction. inversion ND; subst.
+  destruct Hin as [Ea|Hin].
+  - subst a. rewrite Nat.eqb_refl. simpl.
+    assert (X : del_s (sid th) l = l).
+    { unfold del_s. clear - H1. induction l as [|x l IH]; simpl; auto.
+      destruct (Nat.eqb_spec (sid x) (sid th)); simpl.
+      - exfalso. apply H1. simpl. auto.
+      - f_equal. apply IH. intro X. apply H1. simpl. auto. }
+    fold (del_s (sid th) l). rewrite X. lia.
+  - assert (sid a <> sid th). { intro X. apply H1. apply in_map_iff. exists th. split; auto. }
+    apply Nat.eqb_neq in H. rewrite H. simpl. fold (del_s (sid th) l). specialize (IH th H2 Hin). lia.
+Qed.
+
+Lemma sender_progress : forall s th, InvA s -> In th (senders s) ->
+  (spcv th = SRes0 -> outFree s = true) ->
+  exists s', step s (TSearch (sid th) Go) = Some s' /\ srch_rank s' < srch_rank s /\ ctl_rank s' = ctl_rank s.
+Proof.
+  intros s th IA Hin Hc.
+  assert (Hp := A_pan _ IA). assert (Herr := A_err _ IA). assert (Hnd := A_sndnd _ IA).
+  destruct (A_snd _ IA th Hin) as [Hpc [Hle Hlt]].
+  assert (F1 : find_s (sid th) (srch s) = None).
+  { destruct (find_s (sid th) (srch s)) as [t|] eqn:F; auto. destruct (find_s_in _ _ _ F) as [Ht E].
+    destruct (A_sid _ IA t Ht) as [E2 _]. assert (sid th < stopPtr s). { apply Hlt. left. intro X. rewrite X in Ht. contradiction. } lia. }
+  assert (F2 : find_s (sid th) (senders s) = Some th).
+  { destruct (find_s (sid th) (senders s)) as [t|] eqn:F.
+    - destruct (find_s_in _ _ _ F) as [Ht E]. f_equal. eapply sid_unique; eauto.
+    - exfalso. unfold find_s in F. apply (find_none _ _ F) in Hin. rewrite Nat.eqb_refl in Hin. discriminate. }
+  unfold step. rewrite Hp, F1, F2. unfold nstep, upd_n, out_stage1, out_stage2, out_stage3. rewrite ?Herr.
+  destruct (spcv th) eqn:Epc; simpl in Hpc; try discriminate; try rewrite (Hc eq_refl);
+    eexists; (split; [reflexivity|]);
+    unfold srch_rank, ctl_rank, rel_out, emit, acq_out;
+    repeat match goal with |- context [if ?b then _ else _] => destruct b eqn:? end;
+    cbn -[Nat.mul Nat.add list_sum put_s del_s]; (split; [|reflexivity]).
+  all: assert (E1 : rk th = srank (spcv th)) by reflexivity; rewrite Epc in E1; cbn [srank] in E1.
+  all: try (match goal with |- context [put_s (set_spc ?p ?t) _] =>
+              pose proof (rank_put (senders s) t (set_spc p t) Hnd Hin eq_refl) as X;
+              change (rk (set_spc p t)) with (srank p) in X; cbn [srank] in X end; lia).
+  all: pose proof (rank_del (senders s) th Hnd Hin) as X; lia.
+Qed.
+
+(* the goroutine holding sendLock (not the controller) can always run, and lowers the rank *)
+Lemma holder_progress : forall s, InvA s -> outFree s = false -> c_send (cpcv s) = false ->
+  exists n c s', step s (TSearch n c) = Some s' /\ srch_rank s' < srch_rank s /\ ctl_rank s' = ctl_rank s.
+Proof.
+  intros s IA Hf Hc.
+  pose proof (A_hfree _ IA) as H1. pose proof (A_hctl _ IA) as H2. pose proof (A_hkind _ IA) as H3.
+  unfold holder_is in *. rewrite Hf, Hc in *.
+  destruct (outHolder s) as [[| k | |]|] eqn:Eh; simpl in *; try discriminate; try contradiction.
+  destruct (A_hex _ IA k Eh) as [th [[Hin|Hin] E]]; subst k.
+  - pose proof (A_hsrch _ IA th Hin) as Hs. unfold holder_is in Hs. rewrite Eh in Hs. simpl in Hs. rewrite Nat.eqb_refl in Hs.
+    pose proof (A_one _ IA) as Hone. destruct (srch s) as [|t [|t2 r]] eqn:Es; simpl in *; try lia; try contradiction.
+    destruct Hin as [E|[]]. subst t.
+    destruct (search_progress s th IA Es) as [c [s' Hx]].
+    { destruct (spcv th); simpl in Hs; try discriminate; auto. }
+    exists (sid th), c, s'. auto.
+  - pose proof (A_hsnd _ IA th Hin) as Hs. unfold holder_is in Hs. rewrite Eh in Hs. simpl in Hs. rewrite Nat.eqb_refl in Hs.
+    destruct (sender_progress s th IA Hin) as [s' Hx].
+    { intro X. rewrite X in Hs. discriminate. }
+    exists (sid th), Go, s'. auto.
+Qed.
+
+Lemma blocked_progress : forall s, InvA s -> InvJ s -> controller_done s = false -> cstep s = None ->
+  exists n c s', step s (TSearch n c) = Some s' /\ srch_rank s' < srch_rank s /\ ctl_rank s' = ctl_rank s.
 Proof.
   intros s IA IJ Hd Hc.
   pose proof (A_one _ IA) as Hone. pose proof (A_run _ IA) as Hrun. pose proof (A_init _ IA) as Hinit.
-  pose proof (A_out _ IA) as Hout. pose proof (A_call _ IA) as Hcall. pose proof (A_ph _ IA) as Hphl.
+  pose proof (A_call _ IA) as Hcall. pose proof (A_ph _ IA) as Hphl. pose proof (A_hctl _ IA) as Hctl.
   pose proof (J_tok _ IJ) as Jtok. pose proof (J_wf _ IJ) as Jwf. pose proof (J_wait _ IJ) as Jwait.
-  unfold cstep, controller_done, cur_call, srch_init, srch_send, srch_risky, th_risky in *.
+  unfold cstep, controller_done, cur_call, srch_init, srch_risky, th_risky in *.
   destruct (calls s) as [|c cs] eqn:Ec; try discriminate. simpl in Hc, Hcall, Jtok.
   destruct (cpcv s) eqn:Epc; simpl in *; destruct c; try discriminate;
   repeat match goal with
@@ -441,12 +908,18 @@ Proof.
   | H : match limitsVar ?s with _ => _ end = None |- _ => destruct (limitsVar s) eqn:?; try discriminate
   | H : (let (_, _) := out_stage2 ?s in _) = None |- _ => destruct (out_stage2 s); discriminate
   end; try discriminate.
-  all: destruct (srch s) as [|th [|th2 r]] eqn:Es; simpl in *; try lia; try discriminate.
   all: try (exfalso; apply Hphl; auto; fail).
-  all: exists th; split; [reflexivity|]; specialize (Jwait th (or_introl eq_refl)).
-  all: destruct (spcv th); simpl in *; auto; try discriminate.
-  all: try (rewrite Jwait in Jwf; simpl in Jwf; rewrite orb_false_r in Jwf;
-            destruct (tok_unset s); simpl in Jwf; auto; discriminate).
+  (* blocked on sendLock *)
+  all: try (apply holder_progress; auto; rewrite Epc; reflexivity).
+  (* blocked on a semaphore held by the search goroutine *)
+  all: destruct (srch s) as [|th [|th2 r]] eqn:Es; simpl in *; try lia; try discriminate.
+  all: specialize (Jwait th (or_introl eq_refl)).
+  all: destruct (match spcv th with SInfo0 => outFree s | _ => true end) eqn:Elock.
+  all: try (destruct (search_progress s th IA Es) as [c0 [s' Hx]];
+            [ destruct (spcv th); simpl in *; auto; try discriminate;
+              try (rewrite Jwait in Jwf; simpl in Jwf; rewrite orb_false_r in Jwf; destruct (tok_unset s); simpl in Jwf; auto; discriminate)
+            | exists (sid th), c0, s'; exact Hx ]; fail).
+  all: try (apply holder_progress; auto; [destruct (spcv th); auto; discriminate | rewrite Epc; reflexivity]).
 Qed.
 
 Lemma progress : forall s, InvA s -> InvJ s -> controller_done s = false ->
@@ -456,47 +929,10 @@ Proof.
   destruct (cstep s) as [s'|] eqn:Hc.
   - exists TCtl, s'. split. { unfold step. rewrite Hp. exact Hc. }
     destruct (ctl_progress s s' IA Hc). unfold measure. lia.
-  - destruct (blocked_search_cond s IA IJ Hd Hc) as [th [Es Hcond]].
-    destruct (search_progress s th IA Es Hcond) as [c [s' [Hs [H1 H2]]]].
-    exists (TSearch (sid th) c), s'. split; auto. unfold measure. lia.
+  - destruct (blocked_progress s IA IJ Hd Hc) as [n [c [s' [Hs [H1 H2]]]]].
+    exists (TSearch n c), s'. split; auto. unfold measure. lia.
 Qed.
 
-(* a blocked controller is released by the search goroutine ALONE, within a bounded number of its steps
-   (bound: srch_rank <= 500; <= 157 once the search is past its initialisation, i.e. for StopSearch /
-   WaitWhileSearching / the sendLock): StartSearch returns, stop ends the search promptly, readyok is prompt *)
-Definition is_search_tid (t : tid) : bool := match t with TSearch _ _ => true | _ => false end.
-
-Lemma search_step_keeps_ctl : forall s n c s', step s (TSearch n c) = Some s' ->
-  panicked s' = false -> calls s' = calls s /\ cpcv s' = cpcv s.
-Proof.
-  intros s n c s' H Hp. unfold step in H. destruct (panicked s); try discriminate.
-  destruct (find_s n (srch s)) as [th|]; try discriminate.
-  unfold sstep, goto_s, upd_s, out_stage1, out_stage2, out_stage3, rel_init, rel_run, rel_out, new_timer, emit in H.
-  destruct (spcv th), c; try discriminate;
-  repeat match goal with
-  | H : context [if ?b then _ else _] |- _ => destruct b eqn:?; try discriminate
-  | H : context [match tok_get ?p ?l with _ => _ end] |- _ => destruct (tok_get p l) eqn:?
-  | H : context [match limitsVar ?s with _ => _ end] |- _ => destruct (limitsVar s) eqn:?
-  end; inv_some; simpl in *; auto; try discriminate.
-Qed.
-
-Theorem blocked_controller_released : forall k s, srch_rank s < k -> Inv s -> InvJ s -> ctl_blocked s ->
-  exists sched, forallb is_search_tid sched = true /\ length sched < k /\
-                cstep (run_sched s sched) <> None /\ calls (run_sched s sched) = calls s.
-Proof.
-  induction k; intros s Hk I J [Hd Hb]; try lia.
-  pose proof (A_pan _ (proj1 I)) as Hp. unfold step in Hb. rewrite Hp in Hb.
-  destruct (blocked_search_cond s (proj1 I) J Hd Hb) as [th [Es Hcond]].
-  destruct (search_progress s th (proj1 I) Es Hcond) as [c [s' [Hs [H1 H2]]]].
-  assert (I' : Inv s') by (eapply inv_step; eauto).
-  assert (J' : InvJ s') by (eapply invJ_step; eauto; apply I).
-  destruct (search_step_keeps_ctl _ _ _ _ Hs (A_pan _ (proj1 I'))) as [Ecalls Epc].
-  destruct (cstep s') eqn:Hc'.
-  - exists [TSearch (sid th) c]. simpl. rewrite Hs. repeat split; auto; try lia. congruence.
-  - destruct (IHk s') as [sched [F [L [C E]]]]; try lia; auto.
-    { split. { unfold controller_done in *. rewrite Ecalls. auto. } unfold step. rewrite (A_pan _ (proj1 I')). auto. }
-    exists (TSearch (sid th) c :: sched). simpl. rewrite Hs. repeat split; auto; try lia. congruence.
-Qed.
 Lemma invJ_sched : forall sched s, Inv s -> InvJ s -> InvJ (run_sched s sched).
 Proof.
   induction sched; simpl; intros; auto.
@@ -533,21 +969,104 @@ Proof.
   - apply invJ_sched. { split; [apply invA_init | apply invB_init]. } apply invJ_init; auto.
 Qed.
 
+(** ** local statement: a blocked controller is never alone (no well-formedness needed) *)
+Theorem no_deadlock_local : forall s, reachable s -> ctl_blocked s ->
+  exists t, thread_of t <> ThCtl /\ thread_of t <> ThClock /\ step s t <> None.
+Proof.
+  intros s R [Hd Hb]. destruct (inv_reachable s R) as [IA IB].
+  pose proof (A_pan _ IA) as Hp. pose proof (A_one _ IA) as Hone.
+  unfold step in Hb. rewrite Hp in Hb.
+  assert (X : exists n c, step s (TSearch n c) <> None).
+  { pose proof (A_run _ IA) as Hrun. pose proof (A_init _ IA) as Hinit. pose proof (A_call _ IA) as Hcall.
+    pose proof (A_ph _ IA) as Hphl.
+    assert (Hold : outFree s = false -> c_send (cpcv s) = false -> exists n c, step s (TSearch n c) <> None).
+    { intros H1 H2. destruct (holder_progress s IA H1 H2) as [n [c [s' [Hs _]]]]. exists n, c. congruence. }
+    unfold cstep, controller_done, cur_call, srch_init in *.
+    destruct (calls s) as [|c cs] eqn:Ec; try discriminate. simpl in Hb, Hcall.
+    destruct (cpcv s) eqn:Epc; simpl in *; destruct c; try discriminate;
+    repeat match goal with
+    | H : (if ?b then _ else _) = None |- _ => destruct b eqn:?; try discriminate
+    | H : match limitsVar ?s with _ => _ end = None |- _ => destruct (limitsVar s) eqn:?; try discriminate
+    | H : (let (_, _) := out_stage2 ?s in _) = None |- _ => destruct (out_stage2 s); discriminate
+    end; try discriminate.
+    all: try (exfalso; apply Hphl; auto; fail).
+    all: try (apply Hold; auto; fail).
+    all: destruct (srch s) as [|th [|th2 r]] eqn:Es; simpl in *; try lia; try discriminate.
+    all: destruct (match spcv th with SInfo0 => outFree s | _ => true end) eqn:Elock.
+    all: try (apply Hold; auto; destruct (spcv th); auto; discriminate).
+    all: exists (sid th), (match spcv th with SLoop => Finish | _ => Go end);
+         unfold step; rewrite Hp; unfold find_s; rewrite Es; simpl; rewrite Nat.eqb_refl;
+         pose proof (A_srun _ IA th) as Hsr; rewrite Es in Hsr; specialize (Hsr (or_introl eq_refl));
+         unfold sstep, goto_s; destruct (spcv th); simpl in Hsr; try discriminate; try rewrite Elock; try discriminate;
+         try (destruct (limitsVar s); discriminate); try (destruct (tok_get _ _); discriminate);
+         try (destruct (out_stage2 s); discriminate). }
+  destruct X as [n [c Hs]]. exists (TSearch n c). simpl. repeat split; auto; discriminate.
+Qed.
+
+(* a blocked controller is released by the search goroutines ALONE, within a bounded number of their steps
+   (bound: the rank of the live search goroutines; <= 500 for the one that owns isRunning, <= 115 for each
+   goroutine still inside sendResult): StartSearch returns, stop ends the search promptly, readyok is prompt *)
+Definition is_search_tid (t : tid) : bool := match t with TSearch _ _ => true | _ => false end.
+
+Lemma search_step_keeps_ctl : forall s n c s', step s (TSearch n c) = Some s' ->
+  panicked s' = false -> calls s' = calls s /\ cpcv s' = cpcv s.
+Proof.
+  intros s n c s' H Hp. unfold step in H. destruct (panicked s); try discriminate.
+  destruct (find_s n (srch s)) as [th|].
+  - unfold sstep, goto_s, upd_s, out_stage1, out_stage2, out_stage3, rel_init, rel_run, rel_out, acq_out, new_timer, emit in H.
+    destruct (spcv th), c; try discriminate;
+    repeat match goal with
+    | H : context [if ?b then _ else _] |- _ => destruct b eqn:?; try discriminate
+    | H : context [match tok_get ?p ?l with _ => _ end] |- _ => destruct (tok_get p l) eqn:?
+    | H : context [match limitsVar ?s with _ => _ end] |- _ => destruct (limitsVar s) eqn:?
+    end; inv_some; simpl in *; auto; try discriminate.
+  - destruct (find_s n (senders s)) as [th|]; try discriminate. destruct c; try discriminate.
+    unfold nstep, upd_n, out_stage1, out_stage2, out_stage3, rel_out, acq_out, emit in H.
+    destruct (spcv th); try discriminate;
+    repeat match goal with
+    | H : context [if ?b then _ else _] |- _ => destruct b eqn:?; try discriminate
+    end; inv_some; simpl in *; auto; try discriminate.
+Qed.
+
+Theorem blocked_controller_released : forall k s, srch_rank s < k -> Inv s -> InvJ s -> ctl_blocked s ->
+  exists sched, forallb is_search_tid sched = true /\ length sched < k /\
+                cstep (run_sched s sched) <> None /\ calls (run_sched s sched) = calls s.
+Proof.
+  induction k; intros s Hk I J [Hd Hb]; try lia.
+  pose proof (A_pan _ (proj1 I)) as Hp. unfold step in Hb. rewrite Hp in Hb.
+  destruct (blocked_progress s (proj1 I) J Hd Hb) as [n [c [s' [Hs [H1 H2]]]]].
+  assert (I' : Inv s') by (eapply inv_step; eauto).
+  assert (J' : InvJ s') by (eapply invJ_step; eauto; apply I).
+  destruct (search_step_keeps_ctl _ _ _ _ Hs (A_pan _ (proj1 I'))) as [Ecalls Epc].
+  destruct (cstep s') eqn:Hc'.
+  - exists [TSearch n c]. simpl. rewrite Hs. repeat split; auto; try lia. congruence.
+  - destruct (IHk s') as [sched [F [L [C E]]]]; try lia; auto.
+    { split. { unfold controller_done in *. rewrite Ecalls. auto. } unfold step. rewrite (A_pan _ (proj1 I')). auto. }
+    exists (TSearch n c :: sched). simpl. rewrite Hs. repeat split; auto; try lia. congruence.
+Qed.
+
 Lemma srank_le : forall p, srank p <= 500.
 Proof. destruct p; simpl; lia. Qed.
-Lemma srch_rank_le : forall s, InvA s -> srch_rank s <= 500.
+Lemma srch_rank_le : forall s, InvA s -> srch_rank s <= 500 + 115 * length (senders s).
 Proof.
-  intros s IA. pose proof (A_one _ IA). unfold srch_rank. destruct (srch s) as [|th [|th2 r]]; simpl in *; try lia.
-  pose proof (srank_le (spcv th)). lia.
+  intros s IA. pose proof (A_one _ IA) as H1. pose proof (A_snd _ IA) as H2. unfold srch_rank.
+  assert (X : list_sum (map rk (srch s)) <= 500).
+  { destruct (srch s) as [|th [|th2 r]]; simpl in *; try lia. pose proof (srank_le (spcv th)). unfold rk. lia. }
+  assert (Y : list_sum (map rk (senders s)) <= 115 * length (senders s)).
+  { induction (senders s) as [|a l IH]; simpl; try lia.
+    assert (rk a <= 115). { destruct (H2 a (or_introl eq_refl)) as [P _]. unfold rk. destruct (spcv a); simpl in *; try discriminate; lia. }
+    assert (list_sum (map rk l) <= 115 * length l). { apply IH. intros t Ht. apply H2. right. auto. }
+    lia. }
+  lia.
 Qed.
 
 Corollary blocked_controller_released_bound : forall s, reachable s -> InvJ s -> ctl_blocked s ->
-  exists sched, forallb is_search_tid sched = true /\ length sched <= 500 /\ cstep (run_sched s sched) <> None.
+  exists sched, forallb is_search_tid sched = true /\ length sched <= 500 + 115 * length (senders s) /\
+                cstep (run_sched s sched) <> None.
 Proof.
   intros s R J Hb. pose proof (inv_reachable s R) as I.
-  destruct (blocked_controller_released 501 s) as [sched [F [L [C _]]]]; auto.
-  - pose proof (srch_rank_le s (proj1 I)). lia.
-  - exists sched. repeat split; auto. lia.
+  destruct (blocked_controller_released (S (srch_rank s)) s) as [sched [F [L [C _]]]]; auto.
+  exists sched. repeat split; auto. pose proof (srch_rank_le s (proj1 I)). lia.
 Qed.
 
 (* non-vacuity: well-formed call list, reachable state with the controller blocked in StopSearch on an infinite search *)
@@ -564,7 +1083,8 @@ Example no_deadlock_run :
              (repeat TCtl 12 ++ repeat (TSearch 1 Go) 15 ++ repeat TCtl 20 ++ repeat (TSearch 1 Go) 40 ++ repeat TCtl 20
               ++ repeat (TSearch 2 Go) 15 ++ repeat TCtl 20 ++ repeat (TSearch 2 Go) 40 ++ repeat TCtl 20) in
   (controller_done s, rev (trace s), results s) =
-  (true, [EStartReturned 1; EReadyOk; EResult 1; EStopReturned; EStartReturned 2; EPonderHitReturned; EResult 2; ENewGameReturned],
+  (true, [ECall 0; EStartReturned 1; ECall 1; EReadyOk; ECall 2; EResult 1; EStopReturned; ECall 3; EStartReturned 2; ECall 4;
+          EPonderHitReturned; ECall 5; EResult 2; ENewGameReturned],
    [(2, RStop 5); (1, RStop 2)]).
 Proof. vm_compute. reflexivity. Qed.
 
@@ -594,6 +1114,16 @@ Qed.
 
 
 (** * Assumptions *)
+Print Assumptions start_while_running_rejected.
+Print Assumptions start_rejected_step.
+Print Assumptions start_rejected_never_blocks.
+Print Assumptions one_result_per_start.
+Print Assumptions result_belongs_to_start.
+Print Assumptions no_foreign_stop.
+Print Assumptions infinite_not_before_stop.
+Print Assumptions result_sent_after_release.
+Print Assumptions go_after_bestmove_accepted.
+Print Assumptions results_can_swap.
 Print Assumptions race_free.
 Print Assumptions no_deadlock_local.
 Print Assumptions no_deadlock.
